@@ -1351,6 +1351,20 @@ def path_algebra_cert(PA, SG, b_name="Path", s_name="Segment"):
             if (na, nb) not in pairs:
                 pairs.add((na, nb)); dq.append((na, nb))
     rel, by = _rel_spec("sp_rel", pairs)
+    pairs2 = set([(0, 0)])
+    dq = deque(pairs2)
+    while dq:
+        a, b = dq.popleft()
+        for c in pts:
+            if c == SLASH:
+                continue
+            na = PA.step(a, c)
+            if na < 0:
+                continue
+            nb = SG.step(b, c) if b >= 0 else -1
+            if (na, nb) not in pairs2:
+                pairs2.add((na, nb)); dq.append((na, nb))
+    rel2, _ = _rel_spec("ps_rel", pairs2)
     src += rel + """
 proof fn sp_step(a: int, b: int, c: int)
     requires sp_rel(a, b), %(S)s_step(a, c) >= 0,
@@ -1378,6 +1392,36 @@ pub proof fn comp_segment_is_path(x: Seq<int>)
     ensures %(B)s_run(0, x),
 {
     sp_ind(0, 0, x);
+}
+// a path without '/' is a segment: product over the characters other than '/'
+%(PS_REL)s
+proof fn ps_step(a: int, b: int, c: int)
+    requires ps_rel(a, b), c != 47, %(B)s_step(a, c) >= 0,
+    ensures ps_rel(%(B)s_step(a, c), if b >= 0 { %(S)s_step(b, c) } else { -1int }),
+{ }
+proof fn ps_end(a: int, b: int)
+    requires ps_rel(a, b), %(B)s_final(a),
+    ensures b >= 0 && %(S)s_final(b),
+{ }
+proof fn ps_ind(a: int, b: int, t: Seq<int>)
+    requires ps_rel(a, b), %(B)s_run(a, t), forall|i: int| 0 <= i < t.len() ==> #[trigger] t[i] != 47,
+    ensures b >= 0 && %(S)s_run(b, t),
+    decreases t.len()
+{
+    if t.len() == 0 { ps_end(a, b); } else {
+        let c = t[0];
+        if %(B)s_step(a, c) < 0 { %(B)s_dead(t.drop_first()); }
+        ps_step(a, b, c);
+        assert forall|i: int| 0 <= i < t.drop_first().len() implies #[trigger] t.drop_first()[i] != 47 by { assert(t.drop_first()[i] == t[i + 1]); }
+        ps_ind(%(B)s_step(a, c), if b >= 0 { %(S)s_step(b, c) } else { -1int }, t.drop_first());
+    }
+}
+/// FACT: a valid path without '/' is a valid segment
+pub proof fn comp_slashfree_path_is_segment(x: Seq<int>)
+    requires %(B)s_run(0, x), forall|i: int| 0 <= i < x.len() ==> #[trigger] x[i] != 47,
+    ensures %(S)s_run(0, x),
+{
+    ps_ind(0, 0, x);
 }
 proof fn only_zero_final(q: int)
     requires q >= 0, %(B)s_final(q) || %(B)s_step(q, 47) >= 0,
@@ -1443,8 +1487,8 @@ pub proof fn comp_path_consts()
 }
 } // verus!
 fn main() {}
-""" % {"B": b_name, "S": s_name}
-    return src, {"pairs": len(pairs), "lemmas": 8}
+""" % {"B": b_name, "S": s_name, "PS_REL": rel2}
+    return src, {"pairs": len(pairs) + len(pairs2), "lemmas": 13}
 
 
 CERTS["uri_path_algebra"] = lambda: path_algebra_cert(dfa.reference("rfc3986.abnf", "path"), dfa.reference("rfc3986.abnf", "segment"))
